@@ -8,8 +8,8 @@ THEOREMS = ["no_callback_no_effect", "callback_effect", "class_before_method"]
 RULE = (
     "generated class models (gen/classes.py: Trk, Cal, Jet, Vec[T](Iterable[T]), JVec(Vec[Jet]), Evt, an optional registered "
     "collection class, two registered functions; 0-4 parameters per method with a random suffix of defaults of int/float/"
-    "str/bool type; class-level, method-level, function and parameterized-property callbacks placed at random) and "
-    "lambdas over them: every positional/keyword split Python accepts, shuffled keyword order, missing required "
+    "str/bool type; class-level, method-level, function and parameterized-property callbacks placed at random, class-level callbacks also on the generic bases Vec / Grouped and their subclasses JVec / ListGroups so that inherited methods and inherited callbacks both occur) and "
+    "lambdas over them: every positional/keyword split Python accepts, collection-operator lambdas passed positionally or by keyword (f=, filter=), shuffled keyword order, missing required "
     "parameters, calls at every nesting depth through Select/Where/SelectMany/First/Count on collections and through "
     "dictionary fields, lambda parameter names re-used across nesting levels, method names shared between classes; "
     "non-trivial = every case; distinct = distinct (class model, operator, lambda source)"
